@@ -421,9 +421,10 @@ theorem C04_consts_dispatch_statuses :
     (genSentinel "statNotFound").map
       (fun s => (handle kCfg (kFrame tCall [47, 99]) (binding kCfg (kFrame tCall [47, 99]) {}) s
         (.ret Status.zero {} false) {} .sent .sent).closeRequested) = some false ∧
-    Gen.consts_copy_texts.filter (fun r => r.2.1 == "statBadMessage") =
-      [("handlerCtx.bindCall", "statBadMessage", "invalid service method for message"),
-       ("handlerCtx.bindPush", "statBadMessage", "invalid service method for message")] ∧
+    -- every place that copies statBadMessage with a literal cause uses this text (whichever function
+    -- holds the check: bindCall / bindPush or a helper extracted from them), and there is one
+    ((Gen.consts_copy_texts.filter (fun r => r.2.1 == "statBadMessage")).map (fun r => r.2.2)).eraseDups =
+      ["invalid service method for message"] ∧
     some (binding kCfg (kFrame tCall []) {}).stat =
       genCopy "statBadMessage" (constBytes "invalid service method for message") ∧
     some (statAfterRead kCfg { dec := some [1, 2] } (kFrame tCall [47, 99]) {}) = genCopy "statBadMessage" [1, 2] ∧
